@@ -25,6 +25,10 @@ func (s *Server) serveStream(ctx context.Context, r io.Reader, w io.Writer, req 
 		}
 		emptySchema := arrow.NewSchema(nil, nil)
 		s.logIPCWriteErr("error-response", req.Method, writeErrorResponse(w, emptySchema, handlerErr, s.serverID, req.RequestID, s.debugErrors))
+		// The client has already written its input stream (ticks / exchange
+		// batches) behind the request. Drain it, as for every other init
+		// failure below, or the next ReadRequest takes it for a request.
+		drainInputStream(r)
 		return handlerErr, nil
 	}
 
